@@ -1,4 +1,5 @@
 import P2sh.Core.Encode
+import P2sh.Core.Checked
 import P2sh.Driver.Sexp
 /-! Driver for op `core <hex src> @@ <sexp>`: the functional compiler model of the core fragment,
 its machine and the reference evaluation, for byte-exact comparison with the real compiler and VM. -/
@@ -15,6 +16,8 @@ def run (line : String) : String :=
       | none => result "MODEL-SKIP" "any"       -- outside the core fragment
       | some (ss, nglobals, _) =>
         let code := compileP 0 0 ss
+        -- the compiler's overflow check: an operand that does not fit its width is a compile error
+        if !(code.all fitsI) then result "cerr" "eq cerr" else
         let pool := constsP ss
         let codeS := natList (encode code)
         let poolS := joinWith "|" (pool.map encVal)
